@@ -279,3 +279,203 @@ Example C03_main_angle_example :
   o_lt QcOps 0%Qc (L O_getStepsPerTrev) = false /\ o_lt QcOps (L O_getStepsPerTsync) 1%Qc = false.
 Proof. vm_compute. repeat split; reflexivity. Qed.
 End ScalingFamily.
+
+(** *** 8. (family rfgen) the offset fields themselves, over the definitions GENERATED from the C++ on every run
+    (Gen/Gen_RFDrift.v, translate/rfdrift2coq.py: symbolic execution of RFKickMap::_calcKick - both branches, the three
+    statements `=`, `+=`, `*=` composed in order, loop bounds, the written index n*_xsize+x, the updateSM() call after the
+    loops -, of both RFKickMap constructors - member values in declaration order, the `_calcKick(_syncphase)` call with
+    the default amplitude read from the header, the Axis handed to KickMap - and of the DriftMap constructor - loop over
+    _ysize, the accumulation over slip[i] with std::pow as a product, the division by the spacing of axis 0,
+    updateSM()).  Model/RFDriftGen.v only runs the generated pieces ([gen_calcKick], [gen_rfk_lin_ctor],
+    [gen_rfk_sin_ctor], [gen_drift_ctor]; [rs_offset] is `_offset`, [rs_built] the offsets from which updateSM() built
+    the table apply() interpolates with).  A0, A1 are the axes in->getAxis(0), in->getAxis(1); ftan, fsin, fasin
+    interpret std::tan, std::sin, std::asin (the statements hold for every interpretation, in particular the real one).
+    With Gen_Scaling (main()'s angle, slip vector, f_RF, E0) and Gen_Ruler (zerobin, delta, at) the chain
+    main() -> constructor -> offset field -> centroid map is generated end to end. *)
+From Inovesa Require Model.RFDriftKit Gen.Gen_RFDrift Model.RFDriftGen Proofs.RFDriftGenP Proofs.RFDriftGenExampleP.
+Module RFGenFamily.
+Import String ScalingOps Gen_Scaling Gen_Ruler RFDriftKit Gen_RFDrift RFDriftGen RFDriftGenP RFDriftGenExampleP.
+Local Open Scope F_scope.
+
+(** the generated _calcKick is the model's: for EVERY index of `_offset`, both RF models, every phase and amplitude - the
+    nb blocks carry [rf_lin] / [rf_sin] of Model/RF.v (sections 1, 2 and C08 speak about these), the rest is untouched,
+    and the table is built from the new offsets *)
+Theorem C03_calcKick_generated_is_model :
+  forall (K : Fld) (ftan fsin fasin : K -> K) (nb nx ny : Z) (A0 A1 : axfacts K) (M : rfk_members K) (phase ampl : K)
+         (st : rfd_state K),
+    (0 < nx)%Z -> (0 <= nb)%Z ->
+    let st' := gen_calcKick ftan fsin fasin nb nx ny A0 A1 M phase ampl st in
+    (forall i, rs_offset st' i =
+               if in_range i (nx * nb) then rf_offsets nx (model_kick K ftan fsin A0 A1 M phase ampl) i else rs_offset st i) /\
+    (forall i, rs_built st' i = rs_offset st' i).
+Proof. exact gen_calcKick_is_model. Qed.
+Print Assumptions C03_calcKick_generated_is_model.
+
+(** [model_kick] is literally the two fields of Model/RF.v *)
+Theorem C03_model_kick_is_rf_model :
+  forall (K : Fld) (ftan fsin : K -> K) (A0 A1 : axfacts K) (M : rfk_members K) (phase ampl : K) (x : Z),
+    model_kick K ftan fsin A0 A1 M phase ampl x =
+    if m_linear M then
+      rf_lin (ftan (m_angle M)) (ax_zerobin A0) (m_syncphase M - phase) (m_bl2phase M) (ax_delta A0) ampl x
+    else
+      rf_sin (m_revolutionpart M) ampl (m_V_RF M) (m_V0 M) (ax_delta A1) (ax_scale A1 U_ElectronVolt)
+             (fsin (ax_at A0 x * m_bl2phase M + phase)).
+Proof. exact (fun K ftan fsin A0 A1 M phase ampl x => eq_refl). Qed.
+Print Assumptions C03_model_kick_is_rf_model.
+
+(** both generated RFKickMap constructors and the generated DriftMap constructor leave the model's offset vectors *)
+Theorem C03_rf_ctors_generated_are_model :
+  forall (K : Fld) (ftan fsin fasin : K -> K) (nb nx ny : Z) (A0 A1 : axfacts K)
+         (c two_pi angle revolutionpart V_RF f_RF V0 : K),
+    (0 < nx)%Z -> (0 <= nb)%Z ->
+    (let st := gen_rfk_lin_ctor ftan fsin fasin nb nx ny A0 A1 c two_pi angle f_RF in
+     (forall i, rs_offset st i =
+                if in_range i (nx * nb) then rf_offsets nx (fun x => ftan angle * (ax_zerobin A0 - fz x)) i else 0) /\
+     (forall i, rs_built st i = rs_offset st i)) /\
+    (let st := gen_rfk_sin_ctor ftan fsin fasin nb nx ny A0 A1 c two_pi revolutionpart V_RF f_RF V0 in
+     (forall i, rs_offset st i =
+                if in_range i (nx * nb) then
+                  rf_offsets nx (fun x => rf_sin revolutionpart 1 V_RF V0 (ax_delta A1) (ax_scale A1 U_ElectronVolt)
+                                             (fsin (ax_at A0 x * bl2phase_of K A0 c two_pi f_RF + fasin (V0 / V_RF)))) i
+                else 0) /\
+     (forall i, rs_built st i = rs_offset st i)).
+Proof.
+  exact (fun K ftan fsin fasin nb nx ny A0 A1 c two_pi angle revolutionpart V_RF f_RF V0 Hn Hnb =>
+           conj (gen_rfk_lin_ctor_is_model K ftan fsin fasin nb nx ny A0 A1 c two_pi angle f_RF Hn Hnb)
+                (gen_rfk_sin_ctor_is_model K ftan fsin fasin nb nx ny A0 A1 c two_pi revolutionpart V_RF f_RF V0 Hn Hnb)).
+Qed.
+Print Assumptions C03_rf_ctors_generated_are_model.
+
+Theorem C03_drift_ctor_generated_is_model :
+  forall (K : Fld) (ftan fsin fasin : K -> K) (nb nx ny : Z) (A0 A1 : axfacts K) (slip : list K) (E0 : K),
+    let st := gen_drift_ctor ftan fsin fasin nb nx ny A0 A1 slip E0 in
+    (forall i, rs_offset st i =
+               drift_offsets ny (fun y => drift_off slip (ax_scale A1 U_ElectronVolt) E0 (ax_delta A0) (ax_at A1 y)) i) /\
+    (forall i, rs_built st i = rs_offset st i).
+Proof. exact gen_drift_ctor_is_model. Qed.
+Print Assumptions C03_drift_ctor_generated_is_model.
+
+(** C03_rf_offsets_linear over the generated _calcKick: the entry apply() reads for bunch b, row x *)
+Theorem C03_rf_offsets_linear_generated :
+  forall (K : Fld) (ftan fsin fasin : K -> K) (nb nx ny : Z) (A0 A1 : axfacts K) (M : rfk_members K) (phase ampl : K)
+         (st : rfd_state K) (b x : Z),
+    m_linear M = true -> (0 <= b < nb)%Z -> (0 <= x < nx)%Z -> m_bl2phase M <> 0 -> ax_delta A0 <> 0 ->
+    let o := rs_offset (gen_calcKick ftan fsin fasin nb nx ny A0 A1 M phase ampl st) (Z.min b (nb - 1) * nx + x)%Z in
+    let t := ftan (m_angle M) in
+    o = ampl * (t * (ax_zerobin A0 - fz x)) + ampl * t * ((m_syncphase M - phase) / (m_bl2phase M * ax_delta A0)) /\
+    (phase = m_syncphase M -> ampl = 1 -> o = t * (ax_zerobin A0 - fz x)).
+Proof. exact rf_offsets_linear_generated. Qed.
+Print Assumptions C03_rf_offsets_linear_generated.
+
+(** ... and after the generated linear constructor: tan(angle)*(xcenter - x) in the entry of every bunch, in `_offset`
+    and in the offsets the table was built from *)
+Theorem C03_rf_ctor_linear_generated :
+  forall (K : Fld) (ftan fsin fasin : K -> K) (nb nx ny : Z) (A0 A1 : axfacts K) (c two_pi angle f_RF : K) (b x : Z),
+    (0 <= b < nb)%Z -> (0 <= x < nx)%Z ->
+    let st := gen_rfk_lin_ctor ftan fsin fasin nb nx ny A0 A1 c two_pi angle f_RF in
+    rs_built st (Z.min b (nb - 1) * nx + x)%Z = ftan angle * (ax_zerobin A0 - fz x) /\
+    rs_offset st (Z.min b (nb - 1) * nx + x)%Z = ftan angle * (ax_zerobin A0 - fz x).
+Proof. exact rf_ctor_linear_generated. Qed.
+Print Assumptions C03_rf_ctor_linear_generated.
+
+(** C03_drift_offsets_linear over the generated constructor, for axes of any two spacings (the drift divides by the
+    spacing of axis 0, the coordinate is of axis 1): a*(delta_1/delta_0)*(y - yc); a*(y - yc) for equal spacings *)
+Theorem C03_drift_offsets_linear_generated :
+  forall (K : Fld) (ftan fsin fasin : K -> K) (nb nx ny : Z) (A0 A1 : axfacts K) (slip : list K) (a E0 : K) (y : Z),
+    (0 <= y < ny)%Z -> E0 <> 0 -> ax_delta A0 <> 0 -> axis_linear K A1 ->
+    slip = [a; 0; 0] \/ slip = [a] ->
+    let st := gen_drift_ctor ftan fsin fasin nb nx ny A0 A1 slip E0 in
+    rs_offset st y = a * (ax_delta A1 / ax_delta A0) * (fz y - ax_zerobin A1) /\
+    (ax_delta A1 = ax_delta A0 -> rs_offset st y = a * (fz y - ax_zerobin A1)) /\
+    rs_built st y = rs_offset st y.
+Proof. exact drift_offsets_linear_generated. Qed.
+Print Assumptions C03_drift_offsets_linear_generated.
+
+(** the axes built by the generated Ruler constructor are linear: at(i) = delta*(i - zerobin), delta <> 0 *)
+Theorem C03_generated_axis_is_linear :
+  forall (K : Fld) (steps : Z) (mn mx : K) (sc : runit -> K),
+    mn <> mx -> fz (K:=K) (steps - 1) <> 0 ->
+    axis_linear K (gen_axis steps mn mx sc) /\ ax_delta (gen_axis steps mn mx sc) <> 0 /\
+    ax_zerobin (gen_axis steps mn mx sc) = ruler_zerobin steps mn mx /\
+    ax_delta (gen_axis steps mn mx sc) = ruler_delta steps mn mx.
+Proof. exact gen_axis_at. Qed.
+Print Assumptions C03_generated_axis_is_linear.
+
+Theorem C03_drift_offsets_general_generated :
+  forall (K : Fld) (ftan fsin fasin : K -> K) (nb nx ny : Z) (A0 A1 : axfacts K) (a a1 a2 E0 : K) (y : Z),
+    (0 <= y < ny)%Z -> E0 <> 0 -> ax_delta A0 <> 0 ->
+    let st := gen_drift_ctor ftan fsin fasin nb nx ny A0 A1 [a; a1; a2] E0 in
+    let p := ax_at A1 y in let r := p * ax_scale A1 U_ElectronVolt / E0 in
+    rs_offset st y = (a * p + a1 * p * r + a2 * p * (r * r)) / ax_delta A0 /\ rs_built st y = rs_offset st y.
+Proof. exact drift_offsets_general_generated. Qed.
+Print Assumptions C03_drift_offsets_general_generated.
+
+(** the chain from main(): the static linear RF map built with main()'s angle on the Ruler's axes holds
+    tan(angle)*(zerobin_0 - x) for every bunch; the drift map built with main()'s slip vector (alpha1 = alpha2 = 0) holds
+    angle*(delta_1/delta_0)*(y - zerobin_1) *)
+Theorem C03_main_rf_field_generated :
+  forall (K : Fld) (ftan fsin fasin : K -> K) (O : Ops K) (L : leaf -> K) (B : bleaf -> bool)
+         (nb n : Z) (mn0 mx0 mn1 mx1 : K) (sc0 sc1 : runit -> K) (c two_pi : K) (b x : Z),
+    (0 <= b < nb)%Z -> (0 <= x < n)%Z ->
+    let A0 := gen_axis n mn0 mx0 sc0 in let A1 := gen_axis n mn1 mx1 sc1 in
+    let st := gen_rfk_lin_ctor ftan fsin fasin nb n n A0 A1 c two_pi (gen_angle K O L B) (gen_linrf_f_RF K O L B) in
+    rs_built st (Z.min b (nb - 1) * n + x)%Z =
+    ftan (gen_angle K O L B) * (gen_ruler_zerobin K (fz n) mn0 mx0 - fz x).
+Proof. exact main_rf_field_generated. Qed.
+Print Assumptions C03_main_rf_field_generated.
+
+Theorem C03_main_drift_field_generated :
+  forall (K : Fld) (ftan fsin fasin : K -> K) (O : Ops K) (L : leaf -> K) (B : bleaf -> bool)
+         (nb n : Z) (mn0 mx0 mn1 mx1 : K) (sc0 sc1 : runit -> K) (y : Z),
+    (0 <= y < n)%Z -> L O_getAlpha1 = 0 -> L O_getAlpha2 = 0 ->
+    mn0 <> mx0 -> mn1 <> mx1 -> fz (K:=K) (n - 1) <> 0 -> gen_drift_E0 K O L B <> 0 ->
+    let A0 := gen_axis n mn0 mx0 sc0 in let A1 := gen_axis n mn1 mx1 sc1 in
+    let st := gen_drift_ctor ftan fsin fasin nb n n A0 A1 (gen_slip K O L B) (gen_drift_E0 K O L B) in
+    rs_built st y =
+    gen_angle K O L B * (gen_ruler_delta K (fz n) mn1 mx1 / gen_ruler_delta K (fz n) mn0 mx0) *
+    (fz y - gen_ruler_zerobin K (fz n) mn1 mx1).
+Proof. exact main_drift_field_generated. Qed.
+Print Assumptions C03_main_drift_field_generated.
+
+(** the centroid map, generated end to end: main()'s angle and slip vector -> the generated constructors on the generated
+    Ruler axes -> the offsets updateSM() built the tables from -> on the executable grid model of KickMap, one RF kick +
+    drift maps the centre of charge of every bunch by M = [[1 - a t, -a], [t, 1]], t = tan(angle), a = angle*delta_1/delta_0
+    (= angle for equal spacings), about the generated zero bins, for every grid, shift, bunch and distribution; the
+    hypotheses on [eff_off] say that the float sum n/2 + offset is exact (C03_eff_off_exact) *)
+Theorem C03_centroid_step_generated :
+  forall (ftan fsin fasin : Qc -> Qc) n nb it, valid_it it -> (2 <= it)%Z -> (1 < n < 2 ^ 30)%Z -> (0 < nb)%Z ->
+  forall (O : Ops QcF) (L : leaf -> Qc) (B : bleaf -> bool) (mn0 mx0 mn1 mx1 c two_pi : Qc) (sc0 sc1 : runit -> Qc),
+    mn0 <> mx0 -> mn1 <> mx1 -> L O_getAlpha1 = 0%Qc -> L O_getAlpha2 = 0%Qc -> gen_drift_E0 QcF O L B <> 0%Qc ->
+    let A0 := gen_axis (K:=QcF) n mn0 mx0 sc0 in
+    let A1 := gen_axis (K:=QcF) n mn1 mx1 sc1 in
+    let angle := gen_angle QcF O L B in
+    let orf := rs_built (gen_rfk_lin_ctor (K:=QcF) ftan fsin fasin nb n n A0 A1 c two_pi angle (gen_linrf_f_RF QcF O L B)) in
+    let odr := rs_built (gen_drift_ctor (K:=QcF) ftan fsin fasin nb n n A0 A1 (gen_slip QcF O L B) (gen_drift_E0 QcF O L B)) in
+    (forall b x, (0 <= b < nb)%Z -> (0 <= x < n)%Z ->
+       eff_off n (orf (Z.min b (nb - 1) * n + x)%Z) = orf (Z.min b (nb - 1) * n + x)%Z) ->
+    (forall y, (0 <= y < n)%Z -> eff_off n (odr y) = odr y) ->
+    forall D b,
+      (0 <= b < nb)%Z -> step_ok n nb it orf odr D b -> M0 n D b <> 0%Qc ->
+      centre_of_charge n (ax_zerobin A0) (ax_zerobin A1) (rf_drift_step n nb it orf odr D) b =
+      mat_apply (K:=QcF) (Mstep (K:=QcF) (ftan angle) (angle * (ax_delta A1 / ax_delta A0))%Qc)
+                (centre_of_charge n (ax_zerobin A0) (ax_zerobin A1) D b).
+Proof. exact centroid_step_generated. Qed.
+Print Assumptions C03_centroid_step_generated.
+
+(** non-vacuity: the 8 x 8 instance of section 4 with the offsets computed by the generated constructors from
+    main()'s angle (two_pi := 8, StepsPerTs := 32: angle 1/4), Ruler(8, -7/2, 7/2): every hypothesis holds *)
+Example C03_generated_fields_example :
+  map (fun x => this (exg_orf x)) [0; 3; 4; 7]%Z = [7 # 8; 1 # 8; -1 # 8; -7 # 8]%Q /\
+  map (fun y => this (exg_odr y)) [0; 3; 4; 7; 8]%Z = [-7 # 8; -1 # 8; 1 # 8; 7 # 8; 0]%Q /\
+  this (gen_angle QcF QcOps exg_L exg_B) = (1 # 4)%Q /\
+  this (ax_zerobin exg_A) = (7 # 2)%Q /\ this (ax_delta exg_A) = 1%Q.
+Proof. exact exg_values. Qed.
+Example C03_centroid_step_generated_example :
+  centre_of_charge 8 (ax_zerobin exg_A) (ax_zerobin exg_A) (rf_drift_step 8 1 2 exg_orf exg_odr ex_D) 0 =
+  mat_apply (K:=QcF) (Mstep (K:=QcF) (exg_tan (gen_angle QcF QcOps exg_L exg_B))
+                       (gen_angle QcF QcOps exg_L exg_B * (ax_delta exg_A / ax_delta exg_A))%Qc)
+            (centre_of_charge 8 (ax_zerobin exg_A) (ax_zerobin exg_A) ex_D 0).
+Proof. exact exg_centroid_step. Qed.
+Example C03_generated_step_ok_example : step_ok 8 1 2 exg_orf exg_odr ex_D 0.
+Proof. exact exg_step_ok. Qed.
+End RFGenFamily.
